@@ -145,8 +145,17 @@ int cp_ecss_ver(bn_t e, bn_t s, const uint8_t *msg, size_t len, const ec_t q) {
 
 		ec_curve_get_ord(n);
 
-		if (bn_sign(e) == RLC_POS && bn_sign(s) == RLC_POS && !bn_is_zero(s)) {
-			if (bn_cmp(e, n) == RLC_LT && bn_cmp(s, n) == RLC_LT) {
+		if (bn_sign(e) == RLC_POS && bn_sign(s) == RLC_POS && !bn_is_zero(s) &&
+				!ec_is_infty(q) && ec_on_curve(q)) {
+			/* Full public key validation: [n]Q = O when there is a cofactor. */
+			int valid = 1;
+			ec_curve_get_cof(ev);
+			if (bn_cmp_dig(ev, 1) != RLC_EQ) {
+				/* Plain binary method: ec_mul() reduces the scalar modulo n. */
+				RLC_CAT(RLC_EC_LOWER, mul_basic)(p, q, n);
+				valid = ec_is_infty(p);
+			}
+			if (valid && bn_cmp(e, n) == RLC_LT && bn_cmp(s, n) == RLC_LT) {
 				ec_mul_sim_gen(p, s, q, e);
 				ec_get_x(rv, p);
 
@@ -171,6 +180,11 @@ int cp_ecss_ver(bn_t e, bn_t s, const uint8_t *msg, size_t len, const ec_t q) {
 				result = (result == RLC_NE ? 0 : 1);
 
 				if (ev->used != e->used) {
+					result = 0;
+				}
+
+				/* The signer never outputs r = 0, so R = O is not a signature. */
+				if (ec_is_infty(p) || bn_is_zero(rv)) {
 					result = 0;
 				}
 			}
